@@ -23,6 +23,10 @@ type CritEnv struct {
 	GoKinds    bool // wrap numeric literals in arbitrary Go numeric kinds
 	MaxDepth   int
 	OnlyCmp    bool // only eq/neq/gt/gte/lt/lte leaves
+	// ContainsOwn: Contains leaves often take their operands from the elements of one array stored
+	// under the very field, with repetition (the same element twice, or once per Go numeric
+	// kind) and with more operands than the array has elements
+	ContainsOwn bool
 }
 
 var LeafFields = []string{"x", "y", "xy", "n", "n.a", "n.b", "s", "t", "u", "_id", "zz"}
@@ -150,6 +154,26 @@ func (e *CritEnv) Leaf(t *rapid.T) *cs.Crit {
 		c.Args = make([]cs.Operand, n)
 		for i := range c.Args {
 			c.Args[i] = e.Operand(t)
+		}
+		if e.ContainsOwn && op == "contains" {
+			var arrays [][]interface{}
+			for _, v := range e.ValuesOf[f] {
+				if a, ok := v.([]interface{}); ok && len(a) > 0 {
+					arrays = append(arrays, a)
+				}
+			}
+			if len(arrays) > 0 && rapid.IntRange(0, 3).Draw(t, "contains-own") != 0 {
+				a := arrays[rapid.IntRange(0, len(arrays)-1).Draw(t, "contains-own-array")]
+				c.Args = make([]cs.Operand, rapid.IntRange(1, len(a)+2).Draw(t, "contains-own-n"))
+				for i := range c.Args {
+					v := cs.Clone(a[rapid.IntRange(0, len(a)-1).Draw(t, "contains-own-elem")])
+					o := cs.Operand{Kind: "lit", Lit: cs.V{X: v}}
+					if e.GoKinds {
+						o.GoKind = rapid.SampledFrom(exactKinds(v)).Draw(t, "contains-own-gokind")
+					}
+					c.Args[i] = o
+				}
+			}
 		}
 	case "like":
 		c.Pattern = rapid.SampledFrom(likePatterns).Draw(t, "pattern")
